@@ -160,7 +160,7 @@ PROPS.update({
         outside="values larger than the shapes; derived types beyond the generated family",
         explanation="U = usage recorded by a logging input on the unlimited decode; decode_with_mem_limit(L): Ok => same value; fails only if L <= U; succeeds if L > U; U >= model heap bytes of the value; U == 0 for heap-free values."),
     "C15": simple(15,
-        bounds="prefix arithmetic for EVERY old count in u32 and batch sizes {0..3} u {2^32-4 ..} via zero-sized items (Vec and VecDeque targets); payload preservation for old <= 2 and batch <= 2 symbolic items of u8/u32/Option/Vec<u8>/String/Compact; 63->64 with a 63-byte symbolic payload; garbage prefixes: all strings <= 5 bytes; two appends == one append",
+        bounds="prefix arithmetic for EVERY old count in u32 and EVERY batch size in usize via zero-sized items (the iteration over more than 3 unit items is elided in the harness's iterator: a unit encodes to nothing), Vec and VecDeque targets, incl. appends that skip a prefix width class; payload preservation for old <= 2 and batch <= 2 symbolic items of u8/u32/Option/Vec<u8>/String/Compact; 63->64 with a 63-byte symbolic payload; garbage prefixes: all strings <= 5 bytes; two appends == one append",
         outside="payload-carrying vectors at the 2^14 and 2^30 boundaries (the copy is one extend_from_slice independent of the count)",
         explanation="real EncodeAppend::append_or_new vs. the reference encoding of the concatenated sequence; an iterator with a symbolic length whose next() asserts it is never called when the combined count is unrepresentable."),
     "C17": dict(level="other", runs=std_runs(17), pre=[["python3", "tools/lift_constfn.py"]], post="c17",
@@ -175,7 +175,7 @@ PROPS.update({
 # enc_X == enc_Y; likewise accept/reject and values. The no-std configuration is what C01/C03/C04 run; here the same
 # harness sets are decided under std (+chain-error, io::Write blanket Output), no-std + chain-error, and with every optional
 # integration switched off.
-_C20_CORE = ["c03q_duration", "c03q_bool", "c03q_optionbool", "c03q_nz_u32", "c03q_opt_opt_bool", "c03q_vec_u8_3", "c03q_vec_opt_2", "c03q_string_3", "c03q_vec_u8_max", "c03q_string_63",
+_C20_CORE = ["c03q_duration", "c03q_bool", "c03q_optionbool", "c03q_nz_u32", "c03q_opt_opt_bool", "c03q_vec_u8_3", "c03q_vec_opt_2", "c03q_string_3", "c03q_vec_u8_max", "c03q_string_63", "c03q_res_u8_u16", "c03q_opt_u32",
              "c01q_u32", "c01q_f64", "c01q_compact_u64", "c01q_opt_u32", "c01q_vec_u8_3", "c01q_vec_opt_3", "c01q_string_3", "c01q_duration", "c04q_enc_u32", "c04q_dec_u32"]
 _C20_MORE = ["c01q_i64", "c01q_res_opt", "c01q_tup3", "c01q_arr_opt_3", "c01q_vec_u32_2", "c01q_vec_vec_2", "c01q_deque_u32_2", "c01q_list_u8_3", "c01q_box_vec", "c01q_nz_u32", "c01q_borrowed_forms",
              "c03q_u16", "c03q_res_opt_compact", "c03q_tup3", "c03q_arr_opt_3", "c03q_box_u32", "c03q_vec_u32_2", "c03q_list_u8_2", "c04q_enc_u128", "c04q_width_u16_u32"]
@@ -199,8 +199,11 @@ PROPS["C20"] = dict(
 )
 
 PROPS["C20"]["pre"] = GEN_BOTH
+PROPS["C10"]["pre"] = GEN_DERIVE
 for _k in ("C08", "C11", "C12", "C14", "C18", "C19"):
     PROPS[_k]["pre"] = GEN_BOTH
+for _k in ("C14", "C18"):
+    PROPS[_k]["runs"].append(dict(features=[_k.lower()], cfg="std", jobs=8, filters={"quick": [_k.lower() + "q_ioreader"], "thorough": [_k.lower() + "q_ioreader", _k.lower() + "t_ioreader"]}))
 
 HOOK_COMMITS = ["9ece5a5"]
 NOT_APPLICABLE = {}
